@@ -17,7 +17,7 @@ INFO = {
     "Holes cover every position of the seed corpus (which contains every nesting of !, &&, ||, comparisons, parentheses, calls and embedded filters up to depth 3), the terminal classes of names and literals "
     "over all characters, and numeric literal spellings.",
     "functions": ["query.JSONPathQuery.__str__", "segments.*.__str__", "selectors.*.__str__", "filter_expressions.FilterExpression._canonical_string", "filter_expressions.*.__str__", "serialize.canonical_string", "lex.*", "parse.Parser.*"],
-    "bounds": {"quick": {"hole": "k=1 at every seed position; terminal classes with <= 2 symbolic characters (names, literals, numbers)"}, "thorough": {"hole": "k=2 at every seed position; terminal classes up to 4 characters"}},
+    "bounds": {"quick": {"hole": "k=1 at every seed position; terminal classes with <= 2 symbolic characters (names, literals, numbers); six exponent-notation float contexts (mantissa sign x exponent sign) with <= 2 symbolic exponent digits"}, "thorough": {"hole": "k=2 at every seed position; terminal classes up to 4 characters"}},
     "models": ["M5 json.dumps(str, ensure_ascii=False) as per-character escaping (validated for every scalar value each run)", "as C04"],
     "outside": ["numeric literals outside the exactly representable range (1e400 prints as inf)", "queries further than k characters from a seed"],
     "assumptions": ["node selection depends only on the fields compared by the normal form (slice step omitted = 1 is C07's obligation, numeric kind-insensitivity is C06's)"],
@@ -27,6 +27,14 @@ ROUNDTRIP_SEEDS = SEEDS + [
     "$[?!(@.a == 1)]", "$[?!(!@.a)]", "$[?!(@.a && @.b)]", "$[?(@.a || @.b) && (@.c || !@.d)]", "$[?@.a || @.b && @.c || @.d]", "$[?!(@.a || @.b) || !(@.c && @.d)]",
     "$[?((@.a))]", "$[?match(@.a, 'a') && !(1 == 2)]", "$[?@[?!(@.x < 2)]]", "$[?length(@.a) == length(@.b) && count(@.*) != 0]", "$[?@.a == 'it''s']".replace("''", "\\'"),
     "$[?@.a == 1.5e-7 || @.b == -0.0 || @.c == 1E2]", "$[1:, :2, ::-1, -1:-3:-1]", "$['\\u0000\\u001f\\u007f']", "$[?@['a'][0]['b'] == $['c'][-1]]",
+    # floats whose repr() uses exponent notation, both signs of mantissa and exponent, whole-number and fractional mantissas
+    # (added after seeded change C12-r3: the sign of the mantissa decided whether '.0' was kept before the exponent)
+    "$[?@.a == 1.0e20 || @.b == 2.0E+16 || @.c == 3.0e-7 || @.d == 1.25e22]",
+]
+
+# numeric terminal classes of the serialiser: mantissa sign x exponent sign x two symbolic exponent digits
+FLOAT_TERMINALS = [
+    ("$[?@.a==1.0e", "]", 2), ("$[?@.a==-1.0e", "]", 2), ("$[?@.a==-2.0E+", "]", 2), ("$[?@.a==-2.0e-", "]", 2), ("$[?@.a==-1.5e", "]", 2), ("$[?@.a==-", ".0e20]", 1),
 ]
 
 
@@ -89,4 +97,6 @@ def obligations(tier: str):
             if (pre, suf) in SLOW_CONTEXTS:
                 k = 1
         obls.append(holes.obligation("term%02d.k%d" % (i, k), pre, suf, k, "roundtrip", 300 if tier == "quick" else 1500))
+    for i, (pre, suf, k) in enumerate(FLOAT_TERMINALS):
+        obls.append(holes.obligation("float%02d.k%d" % (i, k), pre, suf, k, "roundtrip", 300))
     return obls
